@@ -68,14 +68,24 @@ def generate(seed: int, tier: str) -> Dict[str, Any]:
             payload = {"agent": a, "i": i, "ms": round(r.uniform(0, 9), 3), "msg": r.choice(["x", "ünï", "line\nbreak"])}
             if r.chance(0.15):
                 payload["blob"] = "b" * r.choice([300, 5000, 40000])
+            if r.chance(0.2):
+                payload["stats"] = {"n": r.randint(0, 9)}
+            if r.chance(0.1):
+                payload["items"] = [r.randint(0, 9)]
             logs.append({"stream": r.choice(STREAMS), "payload": payload})
         agents.append({"id": a, "graphs": sorted(r.sample(GRAPHS, r.randint(0, 3))), "logs": logs, "text": E.gen_text(r),
                        # how the agent's graph set is declared in the state (the driver accepts several forms)
                        "decl": r.choice(["gba", "gba", "agents", "both", "meta_plus_gba", "agents_obj"]),
                        "deltas": [{"id": "n:%s%d" % (a, j), "delta": r.choice([0.1, -0.2, 0.3])} for j in range(r.randint(0, 3))],
                        "utter": r.choice(["", "hello", "reply from %s" % a])})
+    if len(agents) >= 2 and r.chance(0.12):
+        # the same agent listed twice in one batch: its second task overlaps the already selected first one
+        dup = dict(agents[0], text=E.gen_text(r), utter="second task of %s" % agents[0]["id"])
+        agents.insert(r.randint(1, len(agents)), dup)
     return {"target": "contract", "agents": agents, "workers": r.randint(2, 8), "limits": [1, r.choice([60, 200, 1000, 6000]), 32 * 1024 * 1024],
-            "every": r.choice([1, 1, 2, 3]), "turn_id": r.choice([0, 1, 2, 6, "7"]), "bust": r.choice(["none", "on-apply"])}
+            "every": r.choice([1, 1, 2, 3]), "turn_id": r.choice([0, 1, 2, 6, "7"]), "bust": r.choice(["none", "on-apply"]),
+            # the T4 kill switch: a turn then neither applies nor logs T4 / apply records, in a loop and through the driver alike
+            "t4_enabled": not r.chance(0.15)}
 
 
 class _Store:
@@ -98,10 +108,22 @@ def _mk_stub(spec_by_agent: Dict[str, Dict[str, Any]]):
     def stub(self, ctx, state, text):
         spec = spec_by_agent[str(ctx.agent_id)]
         for rec in spec["logs"]:
-            append_jsonl(rec["stream"], dict(rec["payload"], turn=ctx.turn_id))
+            live = copy.deepcopy(dict(rec["payload"], turn=ctx.turn_id))
+            append_jsonl(rec["stream"], live)
+            # a stage goes on using the object it has just logged (running totals, a metrics dict that is filled in later):
+            # what reaches the disk is the record as it was when it was logged
+            if isinstance(live.get("stats"), dict):
+                live["stats"]["n"] = int(live["stats"].get("n", 0)) + 1
+                live["stats"]["late"] = True
+            if isinstance(live.get("items"), list):
+                live["items"].append("added after logging")
         deltas = [ProposedDelta(target_kind="node", target_id=d["id"], attr="weight", delta=float(d["delta"]), op_idx=None, idx=i)
                   for i, d in enumerate(spec["deltas"])]
         t4 = types.SimpleNamespace(approved_deltas=deltas, rejected_ops=[], reasons=[], metrics={})
+        t4cfg = (ctx.cfg.get("t4") or {}) if isinstance(ctx.cfg, dict) else {}
+        if not bool(t4cfg.get("enabled", True)):
+            # kill switch: as core.run_turn, neither T4 nor Apply happen (and nothing is stashed for a commit phase)
+            return types.SimpleNamespace(line=spec["utter"], events=[])
         if getattr(ctx, "_dry_run_until_t4", False):
             ctx._dryrun_t4 = t4
             ctx._dryrun_utter = spec["utter"]
@@ -125,7 +147,8 @@ def _contract_once(p: Dict[str, Any], mode: str, limit: Optional[int], stats: Di
     real_run_turn = core.Orchestrator.run_turn
     with Scratch() as root:
         with E.EngineEnv(root, clock) as ee:
-            raw = {"t4": {"snapshot_every_n_turns": int(p["every"]), "snapshot_dir": ee.snap, "cache_bust_mode": p["bust"]},
+            raw = {"t4": {"snapshot_every_n_turns": int(p["every"]), "snapshot_dir": ee.snap, "cache_bust_mode": p["bust"],
+                          "enabled": bool(p.get("t4_enabled", True))},
                    "perf": {"enabled": True, "parallel": {"enabled": True, "agents": True, "max_workers": int(p["workers"])}}}
             cfg = E.make_cfg(raw)
             ctx = types.SimpleNamespace(cfg=cfg, config=cfg, turn_id=p["turn_id"], now_ms=E.T0_MS, now=E.iso_from_ms(E.T0_MS))
@@ -170,9 +193,12 @@ def _contract_once(p: Dict[str, Any], mode: str, limit: Optional[int], stats: Di
                     picked = opar._select_independent_batch([a for a, _ in tasks], state, int(p["workers"]))
                     out["picked"] = picked
                     res = []
+                    ran = set()
                     for aid, text in tasks:
-                        if aid not in picked:
+                        # one turn per selected agent: a second task of the same agent overlaps the first and waits for a later batch
+                        if aid not in picked or aid in ran:
                             continue
+                        ran.add(aid)
                         sub = opar._clone_ctx_for_agent(ctx, aid, ctx.turn_id)
                         sub._dry_run_until_t4 = False
                         res.append(core.Orchestrator().run_turn(sub, state, text))
